@@ -637,6 +637,157 @@ def work(case):
 
 
 # =====================================================================================================
+# schema object reuse (Validator API): one SchemaDefinition / section_schemas dict for a whole sequence of documents
+# =====================================================================================================
+CUSTOM_TARGETS = ["AUDIT_TRAIL", "NOWHERE", "CUSTOMX", "LEDGER"]
+
+
+def gen_reuse_schema(rng, si):
+    """like gen_schema, but most fields route to a custom target that POLICY.TARGETS does not declare"""
+    s = gen_schema(rng, si)
+    s["name"] = "VERIFC09_R%d" % si
+    fields = []
+    for f, ch, _ in s["fields"]:
+        r = rng.random()
+        tgt = rng.choice(CUSTOM_TARGETS) if r < 0.55 else ("SELF" if r < 0.75 else (None if r < 0.9 else "ARCHIVE"))
+        fields.append((f, ch, tgt))
+    if si % 3 == 0:          # the shape of the seed: a satisfiable required field routed to an undeclared custom target
+        fields[0] = (fields[0][0], [("REQ",)], rng.choice(CUSTOM_TARGETS))
+    s["fields"] = fields
+    s["fm"] = []
+    return s
+
+
+def gen_reuse_docs(rng, g, s, n):
+    """n documents for one schema: the validated block (often satisfiable) + blocks annotated `KEY[->TARGET]:` naming the custom
+    targets the schema routes to / other custom names / nothing"""
+    used = sorted({t for _, _, t in s["fields"] if t in CUSTOM_TARGETS}) or CUSTOM_TARGETS[:1]
+    docs = []
+    for k in range(n):
+        d = g.doc()
+        b = gen_block(rng, g, s)
+        r = rng.random()
+        btarget = b[2]
+        if r < 0.25:
+            btarget = rng.choice(used)
+        elif r < 0.5:
+            btarget = None
+        b = ("b", b[1], btarget, b[3], [])
+        secs = [x for x in d["sections"] if x[0] != "c"][:2] + [b]
+        r2 = rng.random()
+        if r2 < 0.35:
+            secs.append(("b", "NOTES", rng.choice(used), [("a", "TEXT", ("str", "x"), [], None)], []))
+        elif r2 < 0.5:
+            secs.append(("s", "7", "LOG", None, [("b", "INNER", rng.choice(CUSTOM_TARGETS + ["OTHER"]), [("a", "K", ("int", "1"), [], None)], [])], []))
+        rng.shuffle(secs)
+        d["sections"] = g._declutter(secs)
+        d["trailing"] = []
+        d["front"] = None
+        docs.append(d)
+    return docs
+
+
+def schema_fingerprint(sd):
+    """every attribute of a SchemaDefinition by value: attribute path -> repr"""
+    out = {"name": repr(sd.name), "version": repr(sd.version), "default_target": repr(getattr(sd, "default_target", None))}
+    pol = sd.policy
+    if pol is None:
+        out["policy"] = "None"
+    else:
+        for k, v in sorted(vars(pol).items()):
+            out["policy." + k] = repr(list(v)) if isinstance(v, list) else repr(v)
+    out["fields.keys"] = repr(list(sd.fields))
+    for fname, fd in sd.fields.items():
+        out["fields[%s].raw_value" % fname] = repr(fd.raw_value)
+        pat = fd.pattern
+        if pat is None:
+            out["fields[%s].pattern" % fname] = "None"
+            continue
+        out["fields[%s].pattern.target" % fname] = repr(pat.target)
+        out["fields[%s].pattern.example" % fname] = repr(pat.example) if not hasattr(pat.example, "tokens") else type(pat.example).__name__
+        cons = pat.constraints
+        if cons is None:
+            out["fields[%s].pattern.constraints" % fname] = "None"
+        else:
+            out["fields[%s].pattern.constraints" % fname] = repr([(type(c).__name__, sorted((k, repr(v)) for k, v in vars(c).items())) for c in cons.constraints])
+    out["frontmatter"] = repr(sorted((k, repr(vars(v))) for k, v in sd.frontmatter.items()))
+    out["warnings"] = repr(len(sd.warnings))
+    extra = sorted(set(vars(sd)) - {"name", "version", "policy", "fields", "frontmatter", "default_target", "warnings"})
+    for k in extra:
+        out["<new attribute> " + k] = repr(vars(sd)[k])[:200]
+    return out
+
+
+def reuse_sequence(name, texts, order, same_validator):
+    """validate texts[order[0]], texts[order[1]], ... against ONE loaded SchemaDefinition (and one section_schemas dict);
+    -> list of step records {step, doc, reused, fresh, changed}"""
+    from octave_mcp.core.parser import parse_with_warnings
+    from octave_mcp.core.validator import Validator
+    from octave_mcp.schemas.loader import get_builtin_schema, load_schema_by_name
+    builtin = get_builtin_schema(name)
+    sd = load_schema_by_name(name)
+    ss = {sd.name: sd}
+    docs = [parse_with_warnings(t)[0] for t in texts]
+    val = Validator(schema=builtin)
+    steps = []
+    for k, di in enumerate(order):
+        before = schema_fingerprint(copy.deepcopy(sd))
+        keys_before = list(ss)
+        v = val if same_validator else Validator(schema=builtin)
+        reused = sorted({(e.code, e.field_path) for e in v.validate(docs[di], strict=False, section_schemas=ss)})
+        after = schema_fingerprint(sd)
+        changed = {k2: [before.get(k2), after.get(k2)] for k2 in sorted(set(before) | set(after)) if before.get(k2) != after.get(k2)}
+        if list(ss) != keys_before or ss.get(sd.name) is not sd:
+            changed["section_schemas dict"] = [repr(keys_before), repr(list(ss))]
+        fresh_sd = load_schema_by_name(name)
+        fresh = sorted({(e.code, e.field_path) for e in Validator(schema=builtin).validate(parse_with_warnings(texts[di])[0], strict=False,
+                                                                                             section_schemas={fresh_sd.name: fresh_sd})})
+        steps.append({"step": k, "doc": di, "reused": reused, "fresh": fresh, "changed": changed})
+    return steps
+
+
+def verdict_of(pairs):
+    return ["INVALID" if pairs else "VALIDATED", [list(p) for p in pairs]]
+
+
+def judge_reuse(case, steps, fail, hist):
+    """each verdict with the reused object must equal the verdict with a freshly loaded one; the object must stay as it was"""
+    base = {"schema": case["schema_text"], "schema_name": case["schema"], "texts": case["texts"], "order": case["order"],
+            "same_validator": case["same_validator"], "kind": "schema-reuse"}
+    reported_change = False
+    for st in steps:
+        hist("reuse_step_verdict", "INVALID" if st["fresh"] else "VALIDATED")
+        for code, _ in st["fresh"]:
+            if code == "E009":
+                hist("reuse_step_E009", "yes")
+                break
+        if st["reused"] != st["fresh"]:
+            fail(dict(base, step=st["step"], text=case["texts"][st["doc"]], history=[case["texts"][i] for i in case["order"][:st["step"]]],
+                      verdict_reused=verdict_of(st["reused"]), verdict_fresh=verdict_of(st["fresh"])),
+                 "api-reuse: with a SchemaDefinition object reused across validations the verdict of a document depends on the documents "
+                 "validated before it (differs from the verdict with a freshly loaded schema)")
+        if st["changed"] and not reported_change:
+            reported_change = True
+            fail(dict(base, step=st["step"], text=case["texts"][st["doc"]], changed=st["changed"]),
+                 "api-reuse: Validator.validate changed the caller's SchemaDefinition: " + ", ".join(sorted(st["changed"])))
+
+
+def work_reuse(case):
+    tally = Tally()
+    try:
+        steps = reuse_sequence(case["schema"], case["texts"], case["order"], case["same_validator"])
+    except Exception as e:  # noqa
+        import traceback
+        tally.fail({"schema": case["schema_text"], "schema_name": case["schema"], "texts": case["texts"], "kind": "schema-reuse"},
+                   "api-reuse: raised %s: %s | %s" % (type(e).__name__, e, traceback.format_exc(limit=3)[-300:]))
+        steps = []
+    judge_reuse(case, steps, tally.fail, tally.hist)
+    tally.count = 2 * len(steps)
+    return {"hists": tally.hists, "count": tally.count, "failures": tally.failures, "steps": len(steps),
+            "sample": ({"schema": case["schema_text"], "order": case["order"], "steps": steps[:4]} if case["id"] == 0 else None)}
+
+
+# =====================================================================================================
 # main process
 # =====================================================================================================
 def dec_pairs(t):
@@ -726,6 +877,17 @@ def run_corpus(ctx, root):
         name = rec["schema_name"]
         if rec.get("schema_text"):
             write_schema(root, name, rec["schema_text"])
+        if rec.get("kind") == "schema-reuse":
+            case = {"schema": name, "schema_text": rec.get("schema_text"), "texts": rec["texts"], "order": rec["order"],
+                    "same_validator": rec.get("same_validator", False)}
+            steps = reuse_sequence(name, rec["texts"], rec["order"], case["same_validator"])
+            ctx.count(2 * len(steps))
+            judge_reuse(case, steps, lambda c, w: ctx.property_failure(dict(c, corpus=fname), w), lambda *a: None)
+            for st, want in zip(steps, rec.get("expect", [])):
+                if [list(p) for p in st["fresh"]] != want:
+                    ctx.property_failure({"corpus": fname, "step": st["step"], "observed": st["fresh"], "expected": want},
+                                         "corpus case: verdict (fresh schema) differs from the recorded one")
+            continue
         texts = list(rec["texts"])
         if rec.get("add_canonical"):
             texts.append(tool_obs(texts[0], name)[1])
@@ -778,6 +940,12 @@ def replay(ctx, case):
         if c.get("schema"):
             write_schema(root, c["schema_name"], c["schema"])
         name = c["schema_name"]
+        if c.get("kind") == "schema-reuse":
+            steps = reuse_sequence(name, c["texts"], c["order"], c.get("same_validator", False))
+            bad = [st for st in steps if st["reused"] != st["fresh"] or st["changed"]]
+            for st in steps:
+                print("step %d doc %d reused=%s fresh=%s changed=%s" % (st["step"], st["doc"], st["reused"], st["fresh"], sorted(st["changed"])))
+            return 1 if bad else 0
         if "text_b" in c:
             oa, pa, *_ = observe_text(c["text_a"], name, 1, root, set(PROFILES))
             ob, pb, *_ = observe_text(c["text_b"], name, 1, root, set(PROFILES))
@@ -812,7 +980,11 @@ def run(ctx):
         "canonical, %d respellings (every render freedom toggled per site + number lexemes 1.0/1.00/1e0/05; one all-freedoms corner), "
         "canon(x), canon(canon(x)). quick: every surface and all four profiles on every text; thorough: all of them on the canonical "
         "text and on every text of each tenth document, on the other texts STANDARD + one rotating profile, one write mode, repeat-call "
-        "check on every second text. non-trivial = distinct respelling with >= 5 lenient sites." % reps)
+        "check on every second text. non-trivial = distinct respelling with >= 5 lenient sites. "
+        "schema-reuse stream (Validator API): per generated schema (most fields routed to a custom target NOT declared in POLICY.TARGETS) "
+        "ONE loaded SchemaDefinition and ONE section_schemas dict serve a shuffled sequence of 3-6 documents (validated block + blocks "
+        "annotated KEY[->TARGET] naming those custom targets), every document validated at least twice; each verdict must equal the one "
+        "with a freshly loaded schema, and the object must be unchanged (attribute-wise) after every call." % reps)
     root = tempfile.mkdtemp(prefix="c09_")
     old = os.getcwd()
     rng = ctx.rng
@@ -885,12 +1057,57 @@ def run(ctx):
             work_items.append({"id": i, "schema": sname, "schema_text": None if use_meta else s["text"], "doc": d, "seed": rng.random(),
                                "reps": reps, "cli": cli, "second": PROFILES[i % 4], "topy": i % 3 == 0, "full": ctx.quick() or i % 10 == 0})
             ctx.hist("schema_kind", "builtin META" if use_meta else "generated")
+        # ---- schema-object-reuse stream (Validator API): one loaded SchemaDefinition per sequence
+        from octave_mcp.core.parser import parse_with_warnings as _pww
+        reuse_items = []
+        n_reuse = ctx.scale(160, 2500)
+        g2 = docgen.Gen(rng, wild=False, max_depth=2, max_sibs=2, clean=True, ok_strings=ok_strings)
+        for ri in range(n_reuse):
+            rs = gen_reuse_schema(rng, ri)
+            rtxt = schema_text(rs)
+            write_schema(root, rs["name"], rtxt)
+            try:
+                if load_schema_by_name(rs["name"]) is None:
+                    raise ValueError("not found")
+            except Exception:  # noqa
+                ctx.hist("reuse_schema_load", "failed")
+                continue
+            texts = []
+            for d in gen_reuse_docs(rng, g2, rs, rng.randint(3, 6)):
+                try:
+                    t = doccases.impl_emit(docprops.expected(d))
+                    _pww(t)
+                    texts.append(t)
+                except Exception:  # noqa
+                    ctx.hist("reuse_doc", "not-readable")
+            if len(texts) < 2:
+                continue
+            order = list(range(len(texts))) * 2
+            rng.shuffle(order)
+            order += [order[0], rng.randrange(len(texts))]          # every document at least twice, at different points
+            for tg in {t for _, _, t in rs["fields"]}:
+                ctx.hist("reuse_field_target", "undeclared custom" if tg in CUSTOM_TARGETS else str(tg))
+            ctx.hist("reuse_sequence_length", len(order))
+            reuse_items.append({"id": len(reuse_items), "schema": rs["name"], "schema_text": rtxt, "texts": texts, "order": order,
+                                "same_validator": ri % 2 == 1})
         phases["documents"] = round(time.time() - t0, 1)
         # ---- implementation side, in parallel (texts are built, observed and judged in the workers)
         nproc = min(16, os.cpu_count() or 4)
         mp = multiprocessing.get_context("fork")
         with mp.Pool(nproc, initializer=_init_worker, initargs=(root,)) as pool:
+            reuse_results = pool.map(work_reuse, reuse_items, chunksize=max(1, min(20, len(reuse_items) // (nproc * 4) or 1)))
             results = pool.map(work, work_items, chunksize=max(1, min(50, len(work_items) // (nproc * 8))))
+        for rr in reuse_results:
+            ctx.count(rr["count"])
+            for name_, buckets in rr["hists"].items():
+                for bk, n in buckets.items():
+                    ctx.hist(name_, bk, n)
+            for case_, what in rr["failures"]:
+                ctx.property_failure(case_, what)
+            if rr["sample"]:
+                ctx.sample(rr["sample"])
+        ctx.extra["schema_reuse_sequences"] = len(reuse_items)
+        ctx.extra["schema_reuse_validations"] = sum(rr["steps"] for rr in reuse_results)
         phases["observe"] = round(time.time() - t0, 1)
         by_id = {r["id"]: r for r in results}
         lines, owners, topy = [], [], []
